@@ -123,4 +123,71 @@ Proof.
   - intros ->. apply (gauss_prec_scaled_exact lnGamma _ (Q2R c)); [exact Hc | | exact Hl].
     intros s _. apply Rdeval_mono_1.
 Qed.
+(* GMRF(mean = Ax, prec = c s^k), stored rank > 0 *)
+Theorem gmrf_mono_exact_iff c k rank logdet cholT P Ax b alpha beta :
+  0 < Q2R c -> (0 < rank)%nat -> chol_law (length b) cholT P -> length Ax = length b ->
+  (proportional_on_pos (post (lik_gmrf (Rdeval (dmono c k)) rank logdet P Ax b) alpha beta)
+     (sampler_logpdf lnGamma rank (gmrf_sqrtprec cholT (Rdeval (dmono c k) 1)) Ax b alpha beta)
+   <-> k = 1%Z).
+Proof.
+  intros Hc Hr Hch Hl. split.
+  - intros H. apply gam_eq_2.
+    apply (scaling_core (lik_gmrf (Rdeval (dmono c k)) rank logdet P Ax b) (Rdeval (dmono c k)) (INR rank / 2)
+             (Rdot (Rvsub b Ax) (Rmatvec P (Rvsub b Ax)) / 2) (1 / 2 * (logdet - INR rank * ln (2 * PI))) (gam k) alpha beta).
+    + apply Rdiv_lt_0_compat; [apply lt_0_INR; exact Hr | lra].
+    + apply gam_pos.
+    + intros s Hs. apply Rdeval_mono_pos; assumption.
+    + intros s _. apply Rdeval_mono_scale.
+    + intros s Hs. unfold lik_gmrf, gmrf_logpdf. field.
+    + unfold sampler_logpdf in H. rewrite r_shape_eq in H.
+      rewrite (gmrf_scaled_rate lnGamma (length b) (Rdeval (dmono c k) 1) cholT P) in H;
+        [| apply Rlt_le, Rdeval_mono_pos; [exact Hc | lra] | exact Hch | exact Hl | reflexivity].
+      replace (Rdeval (dmono c k) 1 * (Rdot (Rvsub b Ax) (Rmatvec P (Rvsub b Ax)) / 2) + beta)
+        with (Rdeval (dmono c k) 1 * Rdot (Rvsub b Ax) (Rmatvec P (Rvsub b Ax)) / 2 + beta) by (unfold Rdiv; ring).
+      exact H.
+  - intros ->. apply (gmrf_scaled_exact lnGamma _ (Q2R c)); [exact Hc | | exact Hch | exact Hl].
+    intros s _. apply Rdeval_mono_1.
+Qed.
+
+(* Gaussian(mean = Ax, cov = c s^k): exact <-> k = -1 *)
+Lemma gam_eq_half k : / gam k = 2 <-> k = (-1)%Z.
+Proof.
+  split; [| intros ->; unfold gam; simpl; lra].
+  intros H. pose proof (gam_pos k) as Hg.
+  assert (Hk : gam k = / 2) by (rewrite <- H, Rinv_inv; reflexivity).
+  destruct k as [|p|p]; unfold gam in Hk.
+  - simpl in Hk. lra.
+  - exfalso. assert (1 <= 2 ^ Z.to_nat (Z.pos p)) by (generalize (Z.to_nat (Z.pos p)); intros n; induction n as [|n IH]; cbn [pow]; lra). lra.
+  - apply (f_equal Rinv) in Hk. rewrite !Rinv_inv in Hk. destruct (Pos.to_nat p) as [|[|q]] eqn:E.
+    + lia.
+    + f_equal. lia.
+    + pose proof (pow2_ge_4 (S (S q)) ltac:(lia)). lra.
+Qed.
+
+Theorem cov_mono_exact_iff c k Ax b alpha beta :
+  0 < Q2R c -> length Ax = length b -> (0 < length b)%nat ->
+  (proportional_on_pos (post (lik_gauss_cov (Rdeval (dmono c k)) Ax b) alpha beta)
+     (sampler_logpdf lnGamma (length b) (sqrtprec_of (from_cov_scalar (length b) (Rdeval (dmono c k) 1))) Ax b alpha beta)
+   <-> k = (-1)%Z).
+Proof.
+  intros Hc Hl Hn. split.
+  - intros H. apply gam_eq_half.
+    apply (scaling_core (lik_gauss_cov (Rdeval (dmono c k)) Ax b) (fun s => / Rdeval (dmono c k) s) (INR (length b) / 2)
+             (Rnormsq (Rvsub b Ax) / 2) (- (1 / 2) * INR (length b) * ln (2 * PI)) (/ gam k) alpha beta).
+    + apply Rdiv_lt_0_compat; [apply lt_0_INR; exact Hn | lra].
+    + apply Rinv_0_lt_compat, gam_pos.
+    + intros s Hs. apply Rinv_0_lt_compat, Rdeval_mono_pos; assumption.
+    + intros s _. rewrite Rdeval_mono_scale, Rinv_mult. reflexivity.
+    + intros s Hs. pose proof (Rdeval_mono_pos c k s Hc Hs) as Hp.
+      rewrite (lik_gauss_cov_at lnGamma (Rdeval (dmono c k)) Ax b s (Rdeval (dmono c k) s) Hp eq_refl Hl).
+      rewrite ln_Rinv by exact Hp. field. lra.
+    + unfold sampler_logpdf in H. rewrite r_shape_eq in H.
+      pose proof (Rdeval_mono_pos c k 1 Hc Rlt_0_1) as Hp1.
+      rewrite (scaled_cov_sqrtprec_rate lnGamma (length b) (Rdeval (dmono c k) 1)) in H; [| exact Hp1 | exact Hl | reflexivity].
+      replace (/ Rdeval (dmono c k) 1 * (Rnormsq (Rvsub b Ax) / 2) + beta)
+        with (1 / Rdeval (dmono c k) 1 * Rnormsq (Rvsub b Ax) / 2 + beta) by (field; lra).
+      exact H.
+  - intros ->. apply (gauss_cov_scaled_exact lnGamma _ (Q2R c)); [exact Hc | | exact Hl].
+    intros s _. apply Rdeval_mono_m1.
+Qed.
 End ScalingIff.
